@@ -277,6 +277,25 @@ func c18Nullable(r *core.Report) {
 					if c, ok := constBool(info, rhs); ok && c {
 						okR = true
 					}
+					if okR {
+						// what the flag itself is computed from: the depth of the parent chain, never the
+						// property name (containers hand their own name down to their elements)
+						if id, ok := rhs.(*ast.Ident); ok {
+							rs := ff.Roots(id, false)
+							usesName := false
+							for o := range rs.Objs {
+								if v, isVar := o.(*types.Var); isVar {
+									if b, isB := v.Type().Underlying().(*types.Basic); isB && b.Kind() == types.String && isParamOf(d, info, o) {
+										usesName = true
+									}
+								}
+							}
+							if usesName {
+								r.Bad(key, p.Pos(as.Pos()), fmt.Sprintf("the nullable flag %s depends on the name handed to %s: slices and maps pass their own name on to their elements, so a pointer element of a top-level slice or map is taken for the root and loses its nullability", id.Name, core.FuncName(d)))
+								continue
+							}
+						}
+					}
 					r.Check(okR, key, p.Pos(as.Pos()), "set from the stripped-pointer flag", fmt.Sprintf("%s assigns %s to a schema's Nullable: not the flag computed from the pointer levels of the type, so a pointer somewhere loses (or a shared schema changes) its nullability", core.FuncName(d), core.ExprStr(rhs)))
 				}
 				return true
@@ -407,4 +426,15 @@ func c18Rec(r *core.Report) {
 		})
 		r.Check(reg && refOK, "rec:cycle-ref-registered", p.Pos(gc.Pos()), "the referenced component name is recorded", "generateCycleSchemaRef returns a '#/components/schemas/<name>' reference without recording <name> in componentSchemaRefs: the reference does not resolve in the component map given to the caller")
 	})
+}
+
+func isParamOf(d *ast.FuncDecl, info *types.Info, o types.Object) bool {
+	for _, fl := range d.Type.Params.List {
+		for _, nm := range fl.Names {
+			if info.Defs[nm] == o {
+				return true
+			}
+		}
+	}
+	return false
 }
